@@ -2,7 +2,7 @@ package main
 
 // C17M — mechanism part of C17 (error positions and debug queries).
 //
-// Four case families, all driven from the seed:
+// Five case families, all driven from the seed:
 //   sim    block-structured event lists executed on the REAL funcContext (RegisterLocalVar / EnterBlock /
 //          LeaveBlock / EndScope through the hook VerifScopeSim) and on the real LFunction.LocalName; replayed on the
 //          Lean Model (exact) and the Lean Spec (variables in scope at every instr).
@@ -16,6 +16,9 @@ package main
 //   lines  one failing statement of every kind (and error(msg,1|2), debug.getinfo(1|2,'l')) inside victim/caller
 //          functions, rendered in 6 layouts x 4 line-terminator styles: reported line must lie in the statement's
 //          token-line span; shift-invariance under inserted blank/comment lines (Impl vs Impl).
+//   upord  (c17_upord.go) upvalue numbering = order of first mention in the source: functions built from statement
+//          templates with a hole in every syntactic position, holes filled by permutations of outer locals;
+//          getupvalue/setupvalue at every index (Go API and debug.*), open and closed upvalues.
 
 import (
 	"encoding/hex"
@@ -637,9 +640,54 @@ func (p *c17progGen) stmt(f *gfn) {
 			return
 		}
 		v := Pick(p.g, cand)
-		resolve(f, v.name)
-		w.startStmt()
-		w.toks(v.name, "=", val(v, p.g.Range(2, 900)))
+		// readable numeric variables (incl. loop counters): `K + 0 * w` keeps the id-coded value K and mentions w
+		var rd []*gvar
+		for g := f; g != nil; g = g.parent {
+			for _, u := range g.inScope() {
+				if u.kind == 0 && resolveVar(f, u.name) == u {
+					rd = append(rd, u)
+				}
+			}
+		}
+		rhs := func(t *gvar, mention bool) []string {
+			k := val(t, p.g.Range(2, 900))
+			if !mention {
+				return []string{k}
+			}
+			return []string{k, "+", "0", "*", Pick(p.g, rd).name}
+		}
+		// upvalues are numbered in the order of their first mention in the source: targets (left to right) first,
+		// then the right-hand sides
+		switch form := p.g.Intn(4); {
+		case form == 0:
+			resolve(f, v.name)
+			w.startStmt()
+			w.toks(v.name, "=", val(v, p.g.Range(2, 900)))
+		case form == 1 || len(cand) < 2:
+			r1 := rhs(v, true)
+			resolve(f, v.name)
+			resolve(f, r1[len(r1)-1])
+			w.startStmt()
+			w.toks(append([]string{v.name, "="}, r1...)...)
+		default:
+			v2 := Pick(p.g, cand)
+			for v2 == v {
+				v2 = Pick(p.g, cand)
+			}
+			r1, r2 := rhs(v, p.g.Bool()), rhs(v2, p.g.Bool())
+			resolve(f, v.name)
+			resolve(f, v2.name)
+			if len(r1) > 1 {
+				resolve(f, r1[len(r1)-1])
+			}
+			if len(r2) > 1 {
+				resolve(f, r2[len(r2)-1])
+			}
+			w.startStmt()
+			ts := append([]string{v.name, ",", v2.name, "="}, r1...)
+			ts = append(ts, ",")
+			w.toks(append(ts, r2...)...)
+		}
 	case c < 40:
 		w.startStmt()
 		w.toks("do")
@@ -1696,6 +1744,8 @@ func execC17M(ops []Op) []string {
 			out = append(out, execChain(op)...)
 		case "lines":
 			out = append(out, execLines(op)...)
+		case "upord":
+			out = append(out, execUpord(op)...)
 		}
 	}
 	return out
@@ -1721,6 +1771,12 @@ func dumpC17M(spec string) {
 		src, sites, _ := genLines(seed, kind, mode, layout, nl, map[int]int{})
 		printNumbered(src)
 		fmt.Printf("%+v\n", sites)
+	case "upord":
+		if depth, mode, seed, ts, pre, post, ok := uoParse(Op{Args: args}); ok {
+			src, probes, bad := uoGenProgram(depth, mode, seed, ts, pre, post)
+			printNumbered(src)
+			fmt.Printf("%+v %s\n", probes, bad)
+		}
 	}
 	lines := execC17M([]Op{{Args: args}})
 	out, err := runDriver(append([]string{"reset"}, lines...))
@@ -1752,7 +1808,7 @@ func runC17M(run *Run) {
 	if run.Tier == "thorough" {
 		nSim, nProg, nChain, nLines = 30000, 3000, 3000, 12
 	}
-	run.Rule = "sim: random block-structured event lists (declare/begin/end/mark-upvalue/instr, for-loop shapes, declaration-after-inner-block shapes, 8% unbalanced) executed on the real funcContext + LFunction.LocalName at every pc; prog: generated Lua programs (nested blocks, while/repeat/if/numeric+generic for, shadowing, local functions with upvalues, methods, varargs) in 6 layouts x 4 line-terminator styles with getlocal/setlocal/getupvalue/setupvalue/getinfo probes at levels 0,1,2 (Go API and debug library); chain: call/tail/pcall/coroutine/metamethod chains x GetStack/where at every level x error(msg, level); lines: every failing-statement kind x 3 modes x layouts, span oracle + shift-invariance (Impl vs Impl); distinct = distinct case skeletons"
+	run.Rule = "sim: random block-structured event lists (declare/begin/end/mark-upvalue/instr, for-loop shapes, declaration-after-inner-block shapes, 8% unbalanced) executed on the real funcContext + LFunction.LocalName at every pc; prog: generated Lua programs (nested blocks, while/repeat/if/numeric+generic for, shadowing, local functions with upvalues, methods, varargs) in 6 layouts x 4 line-terminator styles with getlocal/setlocal/getupvalue/setupvalue/getinfo probes at levels 0,1,2 (Go API and debug library); chain: call/tail/pcall/coroutine/metamethod chains x GetStack/where at every level x error(msg, level); lines: every failing-statement kind x 3 modes x layouts, span oracle + shift-invariance (Impl vs Impl); upord: upvalue ORDER = order of first mention in the function's source text: functions built from statement templates with a hole in every syntactic position (assignment targets single/multiple, table-store object/key/value, right-hand sides, operator operands, call/method receiver and arguments, conditions, loop bounds/explists, constructors, return lists, closures nested 1-3 deep, shadowing locals/parameters/loop variables), holes filled from 6 outer locals by identity/reverse/random permutations or with repetition; every template alone x 3 fills x {f under the declaring block, f inside a wrapper function that is probed too} (exhaustive test), + pairs/triples (thorough: all ordered pairs); getupvalue at -1..n+2 and setupvalue at every index through the Go API and debug.*, on open and on closed upvalues, values and exactly-one-variable-changed seen through a reader closure sharing the variables; distinct = distinct case skeletons"
 	run.Assume = []string{
 		"the Model is the code AFTER fixes/C17-local-scope-ranges.diff and fixes/C17-findlocal-nonpositive-index.diff (harness built against a worktree with both applied)",
 		"only NAMED variables count (names starting with '(' are internal); CompatVarArg=true declares the named local `arg` in vararg functions with a parent",
@@ -1802,8 +1858,15 @@ func runC17M(run *Run) {
 			}
 		}
 	}
+	for i, a := range upordCases(root, run.Tier == "thorough") {
+		cases = append(cases, Case{Idx: 400000 + i, Ops: []Op{{Args: a}}})
+	}
 	runCases(run, cases, execC17M, classifyTagged)
 	for _, c := range cases {
+		if a := c.Ops[0].Args; a[0] == "upord" && len(a) >= 7 {
+			run.Distinct[strings.Join([]string{a[0], a[1], a[2], a[4], a[5], a[6]}, " ")] = true
+			continue
+		}
 		run.Distinct[strings.Join(c.Ops[0].Args[:intMin2(len(c.Ops[0].Args), 4)], " ")+fmt.Sprint(len(c.Ops))] = true
 	}
 }
